@@ -131,15 +131,15 @@ PROPS = {
                      'Verus/Z3 sound'],
         not_decided=['plan interchangeability rests on generate() being deterministic (C17 assumption)']),
     'C01': dict(
-        level='proof', units=[('V', 'V-DEC', 'v_dec'), ('V', 'V-UNPACK', 'v_unpack'), ('V', 'V-BLOCKS', 'v_blocks'), ('V', 'V-ENCNEW', 'v_encnew')],
+        level='proof', units=[('V', 'V-DEC', 'v_dec'), ('V', 'V-UNPACK', 'v_unpack'), ('V', 'V-BLOCKS', 'v_blocks'), ('V', 'V-ENCNEW', 'v_encnew'), ('V', 'V-REBUILD', 'v_rebuild'), ('V', 'V-CRSYM', 'v_crsym')],
         explanation='everything around the solver, for all inputs: the block decoder state is an exact record of the distinct packets received (INV); its answer is answer_spec(state): None below K distinct symbols, '
                     'the un-interleaved source symbols when all K arrived (no solver involved: always answers), otherwise the block assembled from the solver result for exactly the ISI list and D vector RFC 6330 prescribes; '
                     'the object decoder memoises block answers, concatenates them in block order and truncates to F (never longer); un-interleaving writes exactly the RFC layout positions (V-UNPACK); '
-                    'block cutting on the encoder side is V-BLOCKS',
+                    'block cutting on the encoder side is V-BLOCKS, symbol creation (sub-block interleaving, inverse of un-interleaving: lemma_unpack_inverts) V-CRSYM; rebuild_source_symbol_into writes Enc[K\', C, Tuple[K\', i]] as the xor over the RFC index walk (V-REBUILD)',
         assumptions=[SOLVER_ASSUMED, 'packets come from the encoder of this object: block number < Z, payload of exactly T bytes, 24-bit ESI (preconditions)',
-                     'rebuild_source_symbol_into (closure capturing &mut) external: writes Enc[K\', C, Tuple[K\', i]]', 'encoder-side create_symbols / Encoder::new (iterator chains) not under contract: see C05'],
+                     'V-DEC uses rebuild_source_symbol_into through an abstract contract (function of K, slab, id); its concrete value is V-REBUILD\'s'],
         not_decided=['that the solver returns the unique solution (pi_solver.rs is outside contract reach): soundness of the final bytes rests on the assumed solver contract',
-                     'encoder-side symbol creation (sub-block interleaving) and intermediate-symbol generation']),
+                     'that the intermediate symbols generated on the encoder side solve the pre-code system (solver)']),
     'C02': dict(
         level='proof', units=[('V', 'V-DEC', 'v_dec')],
         explanation='the decoder-level half of the property, for all states: the case analysis of SourceBlockDecoder::decode (too few / all source / solve), the ISI list and D vector handed to the solver, '
@@ -193,8 +193,8 @@ PROPS = {
         assumptions=['Intel SDM models of _mm{,256,512}_shuffle_epi8, _bextr2_u32, _mm512_maskz_mov_epi8; nondeterministic CPUID/XGETBV', 'NEON kernels are cfg\'d out on this host: not covered'],
         not_decided=['lengths >= 3W, scalars x lengths product beyond the stated set', 'NEON']),
     'C04': dict(
-        level='proof', units=[('V', 'V-RNG', 'v_rng'), ('V', 'V-TAB', 'v_tab'), ('V', 'V-ENC', 'v_enc'), ('V', 'V-ENCINTO', 'v_encinto'), ('V', 'V-ENCIDX', 'v_encidx'), ('V', 'V-SLAB', 'v_slab'), ('K', 'K-TAB', None), ('K', 'K-RNG', None), ('K', 'K-ENCIDX', None), ('K', 'K-GF', None)],
-        explanation='decided part: Rand, Deg, Tuple equal the RFC definitions for every reachable argument (V-RNG/K-RNG); the Enc index sequence of the decoder-side twin enc_indices (the sequence of its callback arguments, rule F1) is the RFC 5.3.5.3 walk for ALL tuples and all W, P, P1 (V-ENCIDX, Verus, unbounded) and equals the executable RFC transcription for every table row, with termination (K-ENCIDX, Kani); the encoder-side enc_into xors exactly the intermediate symbols at the RFC 5.3.5.3 walk (b + j*a mod W for j < d, then the first d1 positions of the b1 + k*a1 mod P1 walk with value < P), for ALL K\', tuples and symbol sizes (V-ENCINTO, Verus, unbounded); '
+        level='proof', units=[('V', 'V-RNG', 'v_rng'), ('V', 'V-TAB', 'v_tab'), ('V', 'V-ENC', 'v_enc'), ('V', 'V-ENCINTO', 'v_encinto'), ('V', 'V-ENCIDX', 'v_encidx'), ('V', 'V-REBUILD', 'v_rebuild'), ('V', 'V-SLAB', 'v_slab'), ('K', 'K-TAB', None), ('K', 'K-RNG', None), ('K', 'K-ENCIDX', None), ('K', 'K-GF', None)],
+        explanation='decided part: Rand, Deg, Tuple equal the RFC definitions for every reachable argument (V-RNG/K-RNG); the Enc index sequence of the decoder-side twin enc_indices (the sequence of its callback arguments, rule F1) is the RFC 5.3.5.3 walk for ALL tuples and all W, P, P1 (V-ENCIDX, Verus, unbounded) and equals the executable RFC transcription for every table row, with termination (K-ENCIDX, Kani); the decoder\'s rebuild_source_symbol_into (enc_indices applied to its copy/add_assign closure, rule I1) writes the same xor over the same walk as the encoder\'s enc_into (V-REBUILD); the encoder-side enc_into xors exactly the intermediate symbols at the RFC 5.3.5.3 walk (b + j*a mod W for j < d, then the first d1 positions of the b1 + k*a1 mod P1 walk with value < P), for ALL K\', tuples and symbol sizes (V-ENCINTO, Verus, unbounded); '
                     'repair ESI X maps to ISI X + K\' - K and payload Enc over the encoder\'s intermediate symbols, ids as prescribed, source packet i carries source symbol i (V-ENC); D = [0^(S+H), source, 0-padding] (V-SLAB create_d); '
                     'tables equal the pinned transcription and satisfy the RFC structural facts (K-TAB/V-TAB); GF(256) is the RFC field (K-GF). The oracle is an RFC transcription, so a consistent deviation shared by encoder and decoder is caught.',
         assumptions=['pinned tables == RFC 6330', 'V-ENCINTO: termination of the P1 walk not proved (partial correctness); get/add_assign/table look-up contracts assumed there and proved in V-SLAB/K-KERN/V-TAB', SOLVER_ASSUMED],
